@@ -8,7 +8,7 @@
    table as every other connection sees it; `pending s` = the transaction's private
    view while it holds sqlite's write lock; `run cfg init ops` = the state after the
    history `ops` (create/get/select/count/read/assign/destroySelf/expire/sync/drop/cull
-   on either side, syncUpdate, commit, commit(close), rollback, begin), for every configuration
+   on either side, syncUpdate, pickle.dumps, commit, commit(close), rollback, begin), for every configuration
    cfg (cache on/off, cull settings, ConnWrapper usable or not, the class eager or lazyUpdate, column b
    UNIQUE or not).  An instance of a lazyUpdate class queues its assignments (`i_pending`) until
    syncUpdate()/sync(); `shows t i` = every cached attribute of a column with nothing queued agrees with
@@ -66,6 +66,20 @@ Theorem C07_count :
     fst (step cfg s (OCount sd)) =
       if dead s sd then Raise EAssertion else Ret (RNum (Z.of_nat (length (t_rows (view s sd))))).
 Proof. exact (@count_proof). Qed.
+
+(* select has its own specification: list(Cls.select(connection=c)) (or c.Cls.select()) raises AssertionError on a finished
+   transaction, AttributeError through the wrapper where ConnWrapper cannot bind a method (finding
+   connwrapper_method_access_raises), and else returns instances whose ids are exactly the ids of the rows of the OWN
+   connection's view, in order -- through the parent the committed table (nothing of the transaction's uncommitted work, by
+   C07_invisible_until_commit), through the transaction its pending view *)
+Theorem C07_select :
+  forall (cfg : config) (ops : list op) (sd : side) (via : bool) (keep : option nat),
+    let s := run cfg init ops in
+    let r := fst (step cfg s (OSelect sd via keep)) in
+    if dead s sd then r = Raise EAssertion
+    else if via && negb (wrapOk cfg) then r = Raise EAttribute
+    else exists l, r = Ret (RObjs l) /\ map fst l = map fst (t_rows (view s sd)).
+Proof. exact (@select_proof). Qed.
 
 (* conversely the parent's operations never touch the transaction object *)
 Theorem C07_parent_leaves_transaction_alone :
@@ -270,6 +284,43 @@ Theorem C07_refused_update :
     slots s' = slots s /\ deleted s' = deleted s.
 Proof. exact (@refused_update_proof). Qed.
 
+(* ------------------------------------------------------------------ pickling *)
+(* pickle.dumps of an instance obtained through the transaction (Cls.get(id, connection=trans), Cls(connection=trans, ...),
+   a select through trans, trans.Cls(...)): the instance is bound to an explicit connection and __getstate__ refuses it with
+   PicklingError BEFORE anything else happens.  The whole state is what it was -- no flush of queued assignments, no
+   statement (the log of the step is empty), queue, cached values, both caches, both tables, the transaction's bookkeeping --
+   on a running and on a finished transaction alike *)
+Theorem C07_pickle_refused_changes_nothing :
+  forall (cfg : config) (ops : list op) (h x : nat),
+    let s := run cfg init ops in
+    nth h (slots s) None = Some (Txn, x) ->
+    step cfg s (OPickle h) = (Raise EPickling, with_log s []).
+Proof. exact (@pickle_refused_proof). Qed.
+
+(* pickle.dumps of a parent-side instance is accepted.  Eager class, or nothing queued: nothing at all happens, the pickled
+   state is the id and the column attributes the instance carries.  lazyUpdate instance with queued assignments: the state
+   after the step is exactly the state after syncUpdate() (C07_sync_update: one UPDATE with every queued column, the queue
+   emptied); an exception of that UPDATE (database locked by the transaction, UNIQUE column) leaves pickle.dumps; else the
+   pickled state is the attributes the instance carried (which show the queued values already) *)
+Theorem C07_pickle_accepted_is_sync_update :
+  forall (cfg : config) (ops : list op) (h x : nat),
+    let s := run cfg init ops in
+    let i := get_inst s Par x in
+    nth h (slots s) None = Some (Par, x) ->
+    (lazy cfg && dirty i = false -> step cfg s (OPickle h) = (Ret (RState (i_id i) (i_vals i)), with_log s [])) /\
+    (lazy cfg && dirty i = true ->
+     snd (step cfg s (OPickle h)) = snd (step cfg s (OSyncUpdate h)) /\
+     match fst (step cfg s (OSyncUpdate h)) with
+     | Ret _ => fst (step cfg s (OPickle h)) = Ret (RState (i_id i) (i_vals i))
+     | Raise e => fst (step cfg s (OPickle h)) = Raise e
+     end).
+Proof. exact (@pickle_accepted_proof). Qed.
+
+(* Pickling on either side and the other side: OPickle is an operation of `step`, so C07_invisible_until_commit (a pickle
+   through a transaction-side handle changes nothing the parent sees), C07_parent_leaves_transaction_alone (the flush of a
+   parent-side pickle never touches the transaction object), C07_obsolete_refuses and the history theorem
+   C07_parent_shows_committed_partial (step_ok guards the flush like a syncUpdate) speak about it as they stand. *)
+
 (* ------------------------------------------------------------------ what is FALSE of the code (open findings) *)
 Definition cfgT : config := {| doCache := true; cullFreq := 100; cullFrac := 2; wrapOk := false; lazy := false; uniq := false; cacheVals := true |}.
 Definition cfgF : config := {| doCache := false; cullFreq := 100; cullFrac := 2; wrapOk := false; lazy := false; uniq := false; cacheVals := true |}.
@@ -455,7 +506,39 @@ Example C07_no_cached_values :
   fst (step cfgN s2 (ORead 0 0)) = Raise EAssertion /\ par_fresh s2 = true.
 Proof. vm_compute. repeat split. Qed.
 
+(* pickling: the transaction-side instance with a queued assignment is refused and keeps its queue, nothing is sent; the
+   parent-side instance flushes both queued columns in one UPDATE -- refused while the transaction holds the write lock
+   (the exception leaves pickle.dumps, the queue stays), accepted after the rollback; an eager class sends nothing *)
+Example C07_pickle_both_sides :
+  let ops := [OCreate Par false (v 1) (v 1); OGet Txn false 1; OSet 1 0 (v 5); OSet 0 0 (v 7); OSet 0 1 (v 8)] in
+  let s := run cfgL init ops in
+  let s1 := snd (step cfgL s (OPickle 0)) in
+  let s2 := run cfgL s [OSyncUpdate 1] in
+  let s3 := run cfgL s2 [ORollback; OBegin] in
+  step cfgL s (OPickle 1) = (Raise EPickling, with_log s []) /\ dirty (get_inst s Txn 0) = true /\
+  fst (step cfgL s (OPickle 0)) = Ret (RState 1 [Some (v 7); Some (v 8)]) /\
+  log s1 = [SUpdateCols Par 1 [0; 1]%nat] /\ t_rows (committed s1) = [(1, [v 7; v 8])] /\ dirty (get_inst s1 Par 0) = false /\
+  op_side s (OPickle 1) = Some Txn /\ op_side s (OPickle 0) = Some Par /\
+  hist_ok cfgL init (ops ++ [OPickle 1; OPickle 0]) = true /\ par_fresh s1 = true /\
+  fst (step cfgL s2 (OPickle 0)) = Raise EOperational /\ dirty (get_inst (snd (step cfgL s2 (OPickle 0))) Par 0) = true /\
+  fst (step cfgL s3 (OPickle 0)) = Ret (RState 1 [Some (v 7); Some (v 8)]) /\
+  step cfgL (snd (step cfgL s3 ORollback)) (OPickle 1) = (Raise EPickling, with_log (snd (step cfgL s3 ORollback)) []) /\
+  step cfgT (run cfgT init [OCreate Par false (v 1) (v 1)]) (OPickle 0) =
+    (Ret (RState 1 [Some (v 1); Some (v 1)]), with_log (run cfgT init [OCreate Par false (v 1) (v 1)]) []).
+Proof. vm_compute. repeat split. Qed.
+
+(* select on both sides of hist1 (the transaction updated row 1, deleted row 2, created row 3) *)
+Example C07_select_both_sides :
+  let s := run cfgT init hist1 in
+  fst (step cfgT s (OSelect Par false None)) = Ret (RObjs [(1, Some 0%nat); (2, Some 1%nat)]) /\
+  fst (step cfgT s (OSelect Txn false None)) = Ret (RObjs [(1, Some 2%nat); (3, Some 4%nat)]) /\
+  fst (step cfgT s (OSelect Txn true None)) = Raise EAttribute /\ dead s Txn = false.
+Proof. vm_compute. repeat split. Qed.
+
 Print Assumptions C07_invisible_until_commit.
+Print Assumptions C07_select.
+Print Assumptions C07_pickle_refused_changes_nothing.
+Print Assumptions C07_pickle_accepted_is_sync_update.
 Print Assumptions C07_lazy_assignment_queues.
 Print Assumptions C07_sync_update.
 Print Assumptions C07_refused_statement.
